@@ -99,6 +99,7 @@ def run_all(a, names, seeded, cmds, results, tree, env):
                 "violation_lines": lines[:3], "caught_by": how, "wall_s": round(time.time() - t0, 1),
                 "summary": meta.get("summary", ""), "needs": meta.get("needs", ""),
                 "no_failing_input_found": any("no-failing-input-found" in l for l in lines),
+                "only_no_failing_input_found": bool(lines) and all("no-failing-input-found" in l for l in lines),
             }
             print(f"{name}: property={pid} exit={r.returncode} caught={caught} {lines[:1]}")
             if r.returncode == 2:
